@@ -386,3 +386,10 @@ def c_config_ops(ctx, it, cfg):
     for k, s in sub.items():
         frame(ctx, k, m.fields[k], s, modifies=[])
     ctx.prove('set-up-flag-kept', m.fields['isSetup'] is True)
+
+
+# the mesh-sum balance of a recorded step needs the solver to advance the clock by exactly the step the compositions were advanced with:
+# the clamp and loop contracts of the generic solver are part of this property too (shared with C05/C06)
+from . import c05 as _c05
+REG.contracts.append(_c05.c_clamp.contract)
+REG.contracts.append(_c05.c_solve.contract)
